@@ -260,7 +260,8 @@ class SSInHarness(Harness):
         with m.If(pkt_begin | nrdy_req):
             m.d.ss += since_in.eq(0)
         with m.Elif(inreq):
-            m.d.ss += [since_in.eq(1), in_had_data.eq(data_for_req)]
+            # a packet completed in this very cycle may be answered either way (NRDY now, or data)
+            m.d.ss += [since_in.eq(1), in_had_data.eq(data_for_req | (closes & ~nrdy_req))]
         with m.Elif(since_in != 0):
             m.d.ss += since_in.eq(Mux(since_in == 7, 7, since_in + 1))
         erdy_wait = obs(Signal(3, name="erdy_wait"))
@@ -287,7 +288,7 @@ class SSInHarness(Harness):
             # IN request while holding a packet -> a data packet begins within 2 cycles, and no NRDY
             v["in_gets_data"].eq(((since_in >= 3) & in_had_data & ~pkt_begin) | (inreq & data_for_req & hout.send_nrdy)),
             # IN request while holding nothing -> NRDY (requested in the same cycle), no data packet
-            v["in_gets_nrdy"].eq(inreq & ~data_for_req & ~retry & ~nrdy_req),
+            v["in_gets_nrdy"].eq(inreq & ~data_for_req & ~closes & ~retry & ~nrdy_req),
             # NRDY'd and data now available -> ERDY requested
             v["erdy_after_nrdy"].eq(erdy_wait > 2),
             # packets carry the sequence number the host expects (advances only on good ACKs)
